@@ -405,10 +405,20 @@ def run(c):
         # which family's tables changed?  -> focus the search there with 10x the budget
         focus = set()
         txt = " ".join(c.broken)
-        for fam, keys in (("saba", ("Saba", "saba")), ("whfast", ("Whfast", "whfast", "wh")), ("eos", ("Eos", "eos")),
-                          ("janus", ("Janus", "janus")), ("leapfrog", ("Leapfrog", "leapfrog")), ("ias15", ("Ias15", "ias"))):
-            if any(("C01" + k) in txt or ("RV.Proofs.C01" + k) in txt for k in keys[:1]) or any(f.lower().startswith("c01" + fam[:3]) for f in changed):
-                focus.add(fam)
+        import re as _re
+        fams = {"Saba": "saba", "Whfast": "whfast", "Eos": "eos", "Janus": "janus", "Leapfrog": "leapfrog", "Ias15": "ias15"}
+        for line in txt.splitlines():
+            if "error" in line.lower() or "✖" in line:
+                for m in _re.finditer(r"Proofs[/.]C01(Saba|Whfast|Eos|Janus|Leapfrog|Ias15)", line):
+                    focus.add(fams[m.group(1)])
+            m = _re.search(r"translator: .*?\[(saba|whfast|eos|janus|leapfrog|ias15)\]", line)
+            if m:
+                focus.add(m.group(1))
+        if not focus:
+            for f in changed:
+                for k, v in fams.items():
+                    if f.startswith("C01" + k):
+                        focus.add(v)
         if not focus:
             focus = None
         c.log("proof/translator obligations broken; search focus:", focus)
@@ -554,7 +564,8 @@ def extra_checks(c, rebound, clib, d, syss, ref):
                     errs.append(e)
                     c.count(("ias15", nm, sg, mode, eps))
                 res["ias15/%s/%s/%+d" % (nm, mode, sg)] = [float("%.2e" % e) for e in errs]
-                if errs and (max(errs) > 1e-7 or errs[-1] > 3e-10):
+                # class bounds (measured on the clean tree: <= 6.7e-6 for epsilon = 0.1, <= 3e-12 = reference accuracy for 1e-5, 1e-9)
+                if errs and (errs[0] > 1e-3 or errs[1] > 1e-9 or errs[2] > 1e-9 or errs[2] > max(errs[0], 1e-10)):
                     c.violation("ias15:too-large", "IAS15 (%s) error %s on %s" % (mode, errs, nm),
                                 dict(system=sd, mode=mode, errors=errs, T=T))
     # ---------------- BS: error shrinks with the tolerance
